@@ -97,6 +97,7 @@ func main() {
 			root = os.Args[2]
 		}
 		fmt.Print(dumpCols(root))
+		fmt.Print(dumpIntFuncs(root))
 	case "run":
 		fs := flag.NewFlagSet("run", flag.ExitOnError)
 		commonFlags(fs)
